@@ -103,7 +103,7 @@ def spec_seq(js):
 
 
 WITNESS = {"StartAll": "Session.StartAll", "StopAll": "Session.StopAll", "resolveAndAddPeer": "torrent.resolveAndAddPeer",
-           "moveTorrent": "Session.loadExistingTorrent", "reserveID": "Session.AddTorrent", "cleanLive": "Session.CleanDatabase",
+           "moveTorrent": "Session.loadExistingTorrent", "reserveID": "Session.AddTorrent", "cleanLive": "Session.CleanDatabase", "cleanReset": "Session.CleanDatabase",
            "compactLocks": "Session.CompactDatabase", "dhtDropOnStop": "torrent.stop"}
 
 
@@ -122,6 +122,12 @@ def conformance(ctx, xjson, progs, meta):
         got = code.flatten(ROOT_OF.get(w, w))
         if got == progs[w].get(frozenset([name])) and got != progs[w].get(frozenset()):
             fixed.add(name)
+        else:
+            # several repairs may meet in one witness operation: the sources then equal the program of a larger subset
+            for sub, prog in progs[w].items():
+                if name in sub and got == prog and got != progs[w].get(frozenset(sub - {name})):
+                    fixed.add(name)
+                    break
     variant = {}
     compared = 0
     for op, pv in sorted(progs.items()):
